@@ -470,3 +470,86 @@ theorem lang_over_syms {sigma : List QN} {p : Particle} {w : List ASym}
   exact mem_symsOf.mpr ⟨hn c hc, l, hlm, hm.2, hm.1⟩
 
 end XsVerif.CM
+
+/-! ### live leaves (not below a repetition with upper bound 0) -/
+
+namespace XsVerif.Rx
+variable {L σ : Type} (m : L → σ → Bool)
+
+/-- leaves not below a repetition with upper bound 0 -/
+def liveLeaves : Rx L → List L
+  | .empty => []
+  | .eps => []
+  | .sym a => [a]
+  | .cat r s => liveLeaves r ++ liveLeaves s
+  | .alt r s => liveLeaves r ++ liveLeaves s
+  | .rep r _ hi => if hi == some 0 then [] else liveLeaves r
+  | .shuffle r s => liveLeaves r ++ liveLeaves s
+
+theorem lang_syms_live (r : Rx L) : ∀ w, Lang m r w → ∀ c ∈ w, ∃ l ∈ liveLeaves r, m l c = true := by
+  induction r with
+  | empty => intro w h; exact absurd h (by simp [Lang])
+  | eps => intro w h c hc; simp only [Lang] at h; subst h; cases hc
+  | sym a =>
+    rintro w ⟨d, rfl, hm⟩ c hc
+    simp only [List.mem_cons, List.not_mem_nil, or_false] at hc
+    subst hc
+    exact ⟨a, by simp [liveLeaves], hm⟩
+  | cat r s ihr ihs =>
+    rintro w ⟨u, v, rfl, h1, h2⟩ c hc
+    rcases List.mem_append.mp hc with hc | hc
+    · obtain ⟨l, hl, hm⟩ := ihr u h1 c hc
+      exact ⟨l, by simp [liveLeaves, hl], hm⟩
+    · obtain ⟨l, hl, hm⟩ := ihs v h2 c hc
+      exact ⟨l, by simp [liveLeaves, hl], hm⟩
+  | alt r s ihr ihs =>
+    rintro w (h | h) c hc
+    · obtain ⟨l, hl, hm⟩ := ihr w h c hc
+      exact ⟨l, by simp [liveLeaves, hl], hm⟩
+    · obtain ⟨l, hl, hm⟩ := ihs w h c hc
+      exact ⟨l, by simp [liveLeaves, hl], hm⟩
+  | shuffle r s ihr ihs =>
+    rintro w ⟨u, v, hi, h1, h2⟩ c hc
+    rcases (interleave_mem hi c).mp hc with hc | hc
+    · obtain ⟨l, hl, hm⟩ := ihr u h1 c hc
+      exact ⟨l, by simp [liveLeaves, hl], hm⟩
+    · obtain ⟨l, hl, hm⟩ := ihs v h2 c hc
+      exact ⟨l, by simp [liveLeaves, hl], hm⟩
+  | rep r lo hi ih =>
+    rintro w ⟨ws, rfl, _, hhi, hall⟩ c hc
+    obtain ⟨x, hx, hcx⟩ := List.mem_flatten.mp hc
+    by_cases h0 : hi = some 0
+    · subst h0
+      simp only [leHi, Nat.le_zero, List.length_eq_zero_iff] at hhi
+      subst hhi
+      cases hx
+    · obtain ⟨l, hl, hm⟩ := ih x (hall x hx) c hcx
+      exact ⟨l, by simpa [liveLeaves, h0] using hl, hm⟩
+end XsVerif.Rx
+
+namespace XsVerif.CM
+open XsVerif.Wildcard XsVerif.Rx
+
+mutual
+theorem Particle.liveLeaves_toRx : (p : Particle) → Rx.liveLeaves p.toRx = p.liveLeaves
+  | .leaf l lo hi => by simp [Particle.toRx, Rx.liveLeaves, Particle.liveLeaves]
+  | .group _ .seq lo hi ps => by
+    simp [Particle.toRx, Rx.liveLeaves, Particle.liveLeaves, Particles.liveLeaves_toSeq ps]
+  | .group _ .choice lo hi ps => by
+    simp [Particle.toRx, Rx.liveLeaves, Particle.liveLeaves, Particles.liveLeaves_toChoice ps]
+  | .group _ .all lo hi ps => by
+    simp [Particle.toRx, Rx.liveLeaves, Particle.liveLeaves, Particles.liveLeaves_toAll ps]
+theorem Particles.liveLeaves_toSeq : (ps : Particles) → Rx.liveLeaves ps.toSeq = ps.liveLeaves
+  | .nil => by simp [Particles.toSeq, Rx.liveLeaves, Particles.liveLeaves]
+  | .cons p ps => by
+    simp [Particles.toSeq, Rx.liveLeaves, Particles.liveLeaves, Particle.liveLeaves_toRx p, Particles.liveLeaves_toSeq ps]
+theorem Particles.liveLeaves_toChoice : (ps : Particles) → Rx.liveLeaves ps.toChoice = ps.liveLeaves
+  | .nil => by simp [Particles.toChoice, Rx.liveLeaves, Particles.liveLeaves]
+  | .cons p ps => by
+    simp [Particles.toChoice, Rx.liveLeaves, Particles.liveLeaves, Particle.liveLeaves_toRx p, Particles.liveLeaves_toChoice ps]
+theorem Particles.liveLeaves_toAll : (ps : Particles) → Rx.liveLeaves ps.toAll = ps.liveLeaves
+  | .nil => by simp [Particles.toAll, Rx.liveLeaves, Particles.liveLeaves]
+  | .cons p ps => by
+    simp [Particles.toAll, Rx.liveLeaves, Particles.liveLeaves, Particle.liveLeaves_toRx p, Particles.liveLeaves_toAll ps]
+end
+end XsVerif.CM
